@@ -339,13 +339,18 @@ class TrajCheck(Check):
             runs["tj%d" % k] = random_run(rng, tr=2, variants=variants, maxit=rng.choice(maxit_choices),
                                           r=rng.choice(r_choices), nconv=rng.choice([2, 10]),
                                           prior=rng.choice([0.0, 0.0, 2.5]), **over)
+        # a few long realizations (the command line's default limit is 500 sweeps): anything that happens only every
+        # so many sweeps, or only late, is inside the observed window
+        for k in range(6 if self.tier == "quick" else 40):
+            runs["long%d" % k] = random_run(rng, tr=2, variants=variants, maxit=rng.choice([260, 520]), r=1, nconv=1000,
+                                            N=rng.randint(3, 5), nrec=rng.randint(3, 8), heavy=False, **over)
         io, mo = self.correspond("run", [rc.line(c) for c, rc in runs.items()])
         res = []
         for cid, rc in runs.items():
             o = io.get(cid)
             if o and o.get("err") == ["0"]:
                 res.append((cid, rc, o))
-                self.dist(rc.variant())
+                self.dist(rc.variant() + (":long" if cid.startswith("long") else ""))
         return res
 
 
